@@ -6,7 +6,7 @@ package slug
 // comments only; it is compiled only with the "verif" build tag.
 
 // A Packer is configured by NewPacker (through the option closures) or by the package-level Pack and never modified afterwards.
-//@ immutable slug.Packer except NewPacker, Pack, Unpack, ApplyTerraformIgnore$1, DereferenceSymlinks$1, AllowSymlinkTarget$1
+//@ immutable C16.packer-immutable-after-construction: slug.Packer except NewPacker, Pack, Unpack, ApplyTerraformIgnore$1, DereferenceSymlinks$1, AllowSymlinkTarget$1
 
 //@ func (*Packer).validSymlink -> (ok, err)
 //@   pure
